@@ -1671,6 +1671,32 @@ func genArith(repo string) (string, error) {
 		sb.WriteString(txt + "\n")
 	}
 
+	// uniform-signature wrappers -----------------------------------------------------------------
+	sb.WriteString("/-! Uniform-signature wrappers: `F` is always the explicit first argument.  Model/Eval and the driver call\n    the kernels only through these (and through evalUnary/evalBinary), so that a kernel that starts or stops\n    using floats internally does not change the types they depend on — the driver and the search keep\n    working when such an edit breaks a proof. -/\nnamespace U\n\n")
+	for _, n := range sorted {
+		fn := t.fns[n]
+		var hd, call strings.Builder
+		hd.WriteString("def " + leanName(fn.name) + " (F : Type) [FloatOps F]")
+		call.WriteString("PrologVerif.Generated.Arith." + leanName(fn.name))
+		switch {
+		case fn.explicitF:
+			call.WriteString(" F")
+		case fn.sigF:
+			call.WriteString(" (F := F)")
+		}
+		for _, p := range fn.params {
+			hd.WriteString(" (" + leanName(p.name) + " : " + p.t.lean() + ")")
+			call.WriteString(" " + leanName(p.name))
+		}
+		if fn.hasErr {
+			hd.WriteString(" : Except Err " + parenTy(fn.res))
+		} else {
+			hd.WriteString(" : " + fn.res.lean())
+		}
+		sb.WriteString(hd.String() + " :=\n  " + call.String() + "\n")
+	}
+	sb.WriteString("\nend U\n\n")
+
 	// facts ------------------------------------------------------------------------------------
 	strList := func(xs []string) string {
 		qs := make([]string, len(xs))
